@@ -47,6 +47,11 @@ def install(ex):
         S['(*sync.RWMutex).' + m] = mk_rwmutex(m)
     S['(*sync.Mutex).Lock'] = mk_rwmutex('Lock')
     S['(*sync.Mutex).Unlock'] = mk_rwmutex('Unlock')
+    for pk in PKGS:
+        for m in ('Lock', 'Unlock', 'RLock', 'RUnlock'):
+            S['(*%s.verifRWMutex).%s' % (pk, m)] = mk_rwmutex(m)
+    from . import sched as _sched
+    _sched.install(ex)
     S['runtime.KeepAlive'] = lambda ex, a, i: None
     S['internal/bytealg.MakeNoZero'] = lambda ex, a, i: ex.make_bytes([0] * a[0], 'makenozero')
 
@@ -221,6 +226,9 @@ def rand_read(ex, a, ins):
 def mk_rwmutex(m):
     def f(ex, a, ins):
         p = a[0]
+        if getattr(ex, 'sched', None) is not None:
+            ex.sched.mutex_op(m, (p.obj.id, p.off))
+            return None
         st = p.obj.meta
         if st is None:
             st = p.obj.meta = {}
